@@ -179,6 +179,11 @@ def run(tier, seed):
             out.append(rng.choice([c for c in pj if c[0] == want] or pj))
         return out
 
+    def jac_pool(t):
+        """autograd differentiates array-valued functions only: it is offered the requests whose result is a single array"""
+        single = len(t["meas"]) == 1 and len(t["shots"]) <= 1
+        return [c for c in DIFF_FAST if supported(c, t) and (single or c[1] != "autograd")]
+
     def slots(total, k):
         """k seeded positions out of `total` at which a jax configuration is added (a jax call costs about a second)"""
         return set(rng.sample(range(total), min(k, total)))
@@ -205,7 +210,7 @@ def run(tier, seed):
     k_fast, jx = (1, slots(len(fam["jac"]), 6)) if quick else (100, slots(len(fam["jac"]), 150))
     for ci, item in enumerate(fam["jac"]):
         t, args = item["c"]["tapes"][0], item["c"]["args"]
-        cfgs = pick_cfgs(t, k_fast, ci in jx, DIFF_FAST, DIFF_JAX) + [c for c in DIFF_FAST if c[2] == "adjoint" and supported(c, t)]
+        cfgs = pick_cfgs(t, k_fast, ci in jx, jac_pool(t), DIFF_JAX) + [c for c in jac_pool(t) if c[2] == "adjoint"]
         item["jobs"] = [job("jac_qnode", n, [t], cfg, ci, args=args) for cfg in dict.fromkeys(cfgs)]
         item["jobs"] += [job("jac_tape", n, [t], cfg, ci, ps=[item["exp"]["P"]])
                          for cfg in ([TAPE_LEVEL[ci % len(TAPE_LEVEL)]] if quick else TAPE_LEVEL) if supported(cfg, t)]
@@ -240,7 +245,7 @@ def run(tier, seed):
         elif r < 0.85:
             t = rand_tape(nn, diffable=True)
             args = rng.choice(jargs + [[[3]], [[], [2]]])
-            cfg = rng.choice([c for c in (DIFF_JAX if i % jax_every == 3 else DIFF_FAST) if supported(c, t)])
+            cfg = rng.choice([c for c in (DIFF_JAX if i % jax_every == 3 else jac_pool(t)) if supported(c, t)])
             tjobs.append(job("jac_qnode", nn, [t], cfg, i, args=args))
         else:
             ts = [rand_tape(nn, diffable=True, finite=rng.random() < 0.5) for _ in range(rng.randint(1, 2))]
